@@ -3,7 +3,7 @@ NEXT MCNext
 CONSTANTS
   Keys <- MCKeys
   HandlerIds = {1, 2}
-  CTypes <- MCCTypes
+  CTypes <- MCCTypes4
   Defaults <- MCDefaults
   NoRaiseCalls <- MCNoRaise
   MaxObjs = 2
@@ -18,5 +18,4 @@ INVARIANT WellFormedMaps
 INVARIANT NeverStale
 INVARIANT MemoCoherent
 INVARIANT FirstOfBest
-INVARIANT ShortcutInsideRule
 PROPERTY MCIndependent
